@@ -10,7 +10,7 @@
      v_cache  - (use_shared) built-in cursor shared by all screens (F15d, /repo commit 8f58d2d)
    The correspondence run executes the model with all four = true. *)
 From LV Require Import Cursor.CursorDefs Cursor.CursorProofs Cursor.CursorSession Cursor.CursorSessionProofs
-  Cursor.CursorMaskProofs Cursor.CursorShapeProofs Gen.Consts_C15.
+  Cursor.CursorMaskProofs Cursor.CursorShapeProofs Cursor.CursorColour Cursor.CursorAudit Gen.Consts_C15.
 Local Open Scope Z_scope.
 
 (* ---------------------------------------------------------------- rfbShowCursor / rfbHideCursor *)
@@ -28,6 +28,17 @@ Theorem C15_show_is_overlay : forall fmt f c px py ub f1 buf c' r,
   wf_fb f -> show true fmt f c px py ub = Some (f1, buf, c') -> crich c' = Some r ->
   forall x y, fb_get f1 x y = overlay_get fmt c' r px py f x y.
 Proof. exact show_is_overlay_fixed. Qed.
+
+(* what a cell of that overlay IS, stated without the mirror function, for cursors without alpha channel:
+   mask bit set => the cursor's pixel, else the pixel underneath ([cursor_cell] is defined through
+   show_val).  With an alpha channel the cell is the mirror of rfbShowCursor's blend loop ([blend]):
+   NOT proved against an independent per-channel formula - compared with the Python oracle's own formula
+   in the correspondence run only. *)
+Theorem C15_overlay_cell_mask_spec : forall fmt c r u v p,
+  calpha c = None -> 0 <= u < cw c -> 0 <= v < ch c ->
+  length (cmask c) = Z.to_nat (w8 c * ch c) -> length r = Z.to_nat (cw c * ch c) ->
+  cursor_cell fmt c r u v p = cell_mask_spec c r u v p.
+Proof. exact cursor_cell_mask_spec. Qed.
 
 (* record of F15 - the clip before 1a3b6d2 (fixed = false): overlay only left of the last column and
    above the last row, which were never painted *)
@@ -72,7 +83,7 @@ Theorem C15_redraw_covers : forall fixed v_empty fmt s cl s' cl' o,
   Inv fixed fmt s' cl'.
 Proof. exact inv_send_update. Qed.
 
-Theorem C15_redraw_covers_all_clients : forall fixed v_empty fmt cls s s' res,
+Theorem C15_redraw_covers_all_clients_no_write_failure : forall fixed v_empty fmt cls s s' res,
   wf_fb (sfb s) -> wf_ocursor (scur s) ->
   Forall (fun cl => failnext cl = false) cls ->
   Forall (Inv fixed fmt s) cls ->
@@ -90,7 +101,7 @@ Theorem C15_update_with_hook_restores_fb : forall fixed v_empty fmt hook s cls k
   update_one fixed v_empty fmt hook s cls k = Some (s', cls', o, fired) -> sfb s' = sfb s.
 Proof. exact update_one_restores. Qed.
 
-Theorem C15_redraw_covers_with_hook : forall k fixed v_empty fmt hook s cls outs s' cls' outs' fired,
+Theorem C15_redraw_covers_with_hook_no_write_failure : forall k fixed v_empty fmt hook s cls outs s' cls' outs' fired,
   wf_fb (sfb s) -> wf_ocursor (scur s) ->
   (forall hk nc, hook = Some (hk, nc) -> wf_ocursor nc) ->
   Forall (fun cl => failnext cl = false) cls ->
@@ -99,7 +110,7 @@ Theorem C15_redraw_covers_with_hook : forall k fixed v_empty fmt hook s cls outs
   sfb s' = sfb s /\ wf_ocursor (scur s') /\ Forall (Inv fixed fmt s') cls'.
 Proof. exact inv_pump_rounds. Qed.
 
-Theorem C15_picture_converges : forall fixed v_empty fmt s cl s' cl' o,
+Theorem C15_picture_converges_if_sent : forall fixed v_empty fmt s cl s' cl' o,
   wf_fb (sfb s) -> wf_ocursor (scur s) -> failnext cl = false ->
   Inv fixed fmt s cl -> send_update fixed v_empty fmt s cl = Some (s', cl', o) ->
   (forall x y, 0 <= x < fw (sfb s) -> 0 <= y < fh (sfb s) -> req cl x y = true) ->
@@ -178,7 +189,10 @@ Theorem C15_mask_for_xcursor : forall width height src m,
     (pixel w height src (x + 1) y || pixel w height src (x + 1) (y - 1) || pixel w height src (x + 1) (y + 1)).
 Proof. exact mask_is_dilation. Qed.
 
-Theorem C15_rich_from_x : forall fmt c r, 0 <= cw c -> 0 <= ch c ->
+(* rfbMakeRichCursorFromXCursor, size and SELECTION only: cw*ch pixels, pixel (i,j) is the foreground word
+   where the source bitmap has a 1, the background word elsewhere.  The two words are the mirror of the C
+   expression (rgb_word: `(uint32_t)comp << shift`); what colour they are is the next two theorems. *)
+Theorem C15_rich_from_x_selection_mirrored : forall fmt c r, 0 <= cw c -> 0 <= ch c ->
   make_rich_from_x fmt c = Some r ->
   Z.of_nat (length r) = ch c * cw c /\
   forall i j, 0 <= i < cw c -> 0 <= j < ch c ->
@@ -186,6 +200,24 @@ Theorem C15_rich_from_x : forall fmt c r, 0 <= cw c -> 0 <= ch c ->
       zidx r (j * cw c + i) =
       Some (if bit_of byte i then pixmod fmt (rgb_word fmt (cfore c)) else pixmod fmt (rgb_word fmt (cback c))).
 Proof. exact rich_from_x_spec. Qed.
+
+(* colour of an X-style cursor, independent statement (CursorColour.v): a 16-bit component comp means
+   the channel value max*comp/65535 - (p >> shift) & max of the pixel.
+   F15e: REFUTED for the library as it is - the component is shifted unscaled.  32 bpp 8/8/8, foreground
+   (32768,0,0) = half red gives the pixel 0x8000: red channel 0, green channel 128. *)
+Theorem C15_rich_from_x_colour_refuted :
+  exists r, make_rich_from_x fmt32 col_cur = Some r /\ r = [32768] /\
+            red_of fmt32 32768 = 0 /\ green_of fmt32 32768 = 128 /\ chan 255 32768 = 127 /\
+            ~ rich_from_x_ok fmt32 col_cur r.
+Proof. exact rich_from_x_colour_refuted. Qed.
+
+(* ... and the word that is right for every true-colour format with separate channels inside the pixel
+   (what notes/fix_C15_5.diff makes the library compute) *)
+Theorem C15_rgb_word_scaled_ok : forall fmt kr kg kb c3,
+  fmt_ok fmt kr kg kb ->
+  (let '(r, g, b) := c3 in 0 <= r <= 65535 /\ 0 <= g <= 65535 /\ 0 <= b <= 65535) ->
+  colour_ok fmt c3 (pixmod fmt (rgb_word_scaled fmt c3)).
+Proof. exact rgb_word_scaled_ok. Qed.
 
 (* rfbSendCursorShape: a cursor with pixels is announced with its exact hot-spot and size, followed
    by exactly the payload RFB prescribes: colours + bitmap + mask (XCursor) or pixels + mask *)
@@ -260,9 +292,33 @@ Proof. exact cache_ok_newfb. Qed.
 Theorem C15_rich_cache_valid_other_screen : forall tag fmt c, tag <> None -> CacheOK fmt (use_shared true tag fmt c).
 Proof. exact cache_ok_use_shared. Qed.
 
-Theorem C15_inv_new_framebuffer : forall fixed fold fnew s cls f,
+Theorem C15_inv_new_framebuffer_same_size : forall fixed fold fnew s cls f,
   wf_fb f -> same_shape f (sfb s) ->
   Forall (Inv fixed fold s) cls ->
   Forall (Inv fixed fnew (fst (new_framebuffer fold fnew s cls f))) (snd (new_framebuffer fold fnew s cls f)).
 Proof. exact inv_new_framebuffer. Qed.
 
+(* ---------------------------------------------------------------- NOT PROVED - tested by the correspondence
+   run and the Python oracle only (audit notes/audit_B.md, C15 items 3-11):
+   - bytes, row stride, padding: the model framebuffer is a list of rows of pixel values; bytes-per-pixel and
+     paddedWidthInBytes arithmetic of cursor.c is exercised by the harness (op `stride`: rows further apart than
+     width*bpp, padding bytes must stay untouched), not modelled.  bufSize = cw*ch*bpp is an `int` product in C
+     and the malloc results of rfbShowCursor/rfbMake*Cursor* are unchecked: statements hold for cw*ch*bpp < 2^31.
+   - C15_redraw_covers_all_clients_no_write_failure / _with_hook_no_write_failure: premise "no client's write
+     fails in this round"; for rounds with failing writes only `sfb` restored (C15_update_with_hook_restores_fb) is
+     proved; the picture of the SURVIVORS of such a round is checked by the session generator (flavours fail, hook).
+   - C15_rich_cache_valid_*: CacheOK is preserved by the operations named there; it is not a premise of a picture
+     theorem and not proved preserved by shape_msg (rfbSendCursorShape derives the rich form for the CLIENT's
+     translation) - the consumer is C15_rich_cache_matches_format for the built-in cursor only.
+   - rfbMakeXCursorFromRichCursor (make_x_from_rich): mirrored and run (generator `makex`), NO theorem; its
+     trueColour = FALSE branch and redMax = 0 are outside the model.  Hence the payload of C15_shape_message in the
+     rich -> XCursor branch is stated on the result of that unproved function.
+   - C15_pos_message: on the abstract pair (x, y); the wire bytes and the 16-bit truncation of rfbSendCursorPos
+     are compared by the correspondence run.  The 1x1 transparent cursor sent when there is no cursor
+     (C15_shape_message_no_cursor) is stated; the rule for a rich cursor without source bitmap is not.
+   - C15_inv_new_framebuffer_same_size: same size and pixel size only; a resize (and cl->cursorX, which
+     rfbNewFramebuffer does not clamp) has no theorem.
+   - C15_picture_converges_if_sent: assumes the update was sent (o_sent = true); "a pointer move forces a
+     non-empty update" is not proved.
+   - CopyRect cursor logic of rfbScheduleCopyRegion, slices, colour-mapped and big-endian server formats, rich
+     pixels for a client format different from the server format: no theorem (the latter two: not generated). *)
